@@ -34,6 +34,17 @@ struct TCE {  // trivially copyable
   int v;
 };
 
+struct TDCE {  // trivially default constructible, not trivially copyable: its assignment operator is observable
+  int v;
+  TDCE() = default;
+  explicit TDCE(int x) : v(x) {}
+  TDCE &operator=(const TDCE &o) {
+    ev("casg", 0, 0);
+    v = o.v;
+    return *this;
+  }
+};
+
 struct RelocTag {
   typedef std::true_type trivially_relocatable;
 };
@@ -190,6 +201,16 @@ struct Decode<TCE> {
     out += buf;
   }
   static void construct(TCE *p, int v) { p->v = v; }
+};
+
+template <>
+struct Decode<TDCE> {
+  static void slot(const TDCE *p, std::string &out) {
+    char buf[96];
+    snprintf(buf, sizeof buf, "{\"id\":0,\"v\":%d,\"mv\":0}", p->v);
+    out += buf;
+  }
+  static void construct(TDCE *p, int v) { new (p) TDCE(v); }
 };
 
 struct Out {
@@ -390,6 +411,8 @@ int main(int argc, char **argv) {
     lb.a = a, lb.n = n, lb.sit = sit, lb.dit = dit, lb.cat = cat, lb.k = k;
     if (lb.cat == "TC")
       run<TCE>(lb, out);
+    else if (lb.cat == "TDC")
+      run<TDCE>(lb, out);
     else if (lb.cat == "TR")
       run<TRE>(lb, out);
     else if (lb.cat == "NTR")
